@@ -340,4 +340,6 @@ def check(run, views, tier):
         include(run, c17, {cfg: {"ipp": F}}, tier)
         include(run, c11, {cfg: {"ipp": F}}, tier, "blocking::IppClient::send", "R-CARGO")
         include(run, c14, {cfg: crates}, tier, "|ipputil::")
+        from . import c09
+        include(run, c09, {cfg: {"ipp": F}}, tier, "R-ORDERLIST", "R-GROUPS", "R-ENDTAG")
         run.cfg = cfg
